@@ -101,6 +101,12 @@ def build(targets=None):
         cmd = ["timeout", "1700", "make", "-k", f"-j{NPROC}", "COQC=timeout 600 coqc"] + (targets or [])
         rc, out = run(cmd, cwd=COQ, timeout=1800)
         failed = re.findall(r'File "\./([^"]+)", line', out) if rc != 0 else []
+        if rc != 0:
+            # a missing source is a failure of the files that need it, not of the whole build
+            for missing, needer in re.findall(r"No rule to make target '([^']+)\.vo', needed by '([^']+)\.vo'", out):
+                failed += [missing + ".v", needer + ".v"]
+            for t in re.findall(r"\*\*\* \[[^\]]*: ([A-Za-z0-9_/]+)\.vo\] Error", out):
+                failed.append(t + ".v")
         return {"ok": rc == 0, "log": out[-20000:], "gen_status": gen_status,
                 "failed_file": failed[0] if failed else None, "failed_files": sorted(set(failed)),
                 "cmd": "python3 translate/gen.py %s coq/Gen build/gen_status.json && (cd coq && coq_makefile -f _CoqProject -o Makefile && make -k -j%d)" % (REPO, NPROC)}
